@@ -11,9 +11,11 @@ from vk import common
 PROPERTY = "C18"
 LEVEL = "exploration"
 RULE = ("exhaustive: 1..4 caches x all 3^n assignments of {miss, hit, hit with a falsy non-None value} x reads {get, gets, get_many, gets_many} and writes {set, add, "
-        "replace, append, prepend, cas, delete, incr, decr, touch, flush_all} x default and non-default arguments; plus real "
+        "replace, append, prepend, cas, delete, incr, decr, touch, flush_all} x default and non-default arguments x order given at construction or changed afterwards through .caches; plus real "
         "Clients over reference servers as caches (get/get_many/gets_many and all writes). Non-trivial = >=2 caches; distinct by the full case.")
 ASSUMPTIONS = [
+    "'the configured order' is the current content of the public caches attribute (inserting a new primary, assigning a new list, "
+    "dropping the old primary after construction are configuration; the class reads self.caches at every call)",
     "a scripted cache reports a miss as None (get/gets) or {} (multi-key) and a hit as a unique non-None object / non-empty dict",
     "what an all-miss multi-key read returns is only required to be empty (falsy)",
     "FallbackClient.gets over real Clients is not judged: Client.gets reports a miss as (None, None), which fallback.py treats as a hit; the statement's observation point is scripted caches",
@@ -103,13 +105,31 @@ def normalise(name, args, kwargs):
     return tuple(out)
 
 
-def run_scripted(res, fallback, n, hits):
+def build(fallback, caches, reconf):
+    """reconf: the order is (re)configured through the public 'caches' attribute after construction"""
+    if reconf is None or len(caches) < 2:
+        return fallback.FallbackClient(list(caches))
+    if reconf == "insert-primary":
+        fc = fallback.FallbackClient(list(caches[1:]))
+        fc.caches.insert(0, caches[0])
+    elif reconf == "assign":
+        fc = fallback.FallbackClient(list(reversed(caches)))
+        fc.caches = list(caches)
+    elif reconf == "drop-old-primary":
+        fc = fallback.FallbackClient([Cache(99, True, caches[0].log)] + list(caches))
+        del fc.caches[0]
+    else:
+        raise ValueError(reconf)
+    return fc
+
+
+def run_scripted(res, fallback, n, hits, reconf=None):
     for op in READS:
         log = []
         caches = [Cache(i, hits[i], log) for i in range(n)]
-        fc = fallback.FallbackClient(caches)
+        fc = build(fallback, caches, reconf)
         arg = ["k1", "k2"] if op.endswith("many") else "k1"
-        case = ("read", n, hits, op)
+        case = ("read", n, hits, op, reconf)
         try:
             r = getattr(fc, op)(arg)
         except Exception as e:
@@ -135,8 +155,8 @@ def run_scripted(res, fallback, n, hits):
         for args, kwargs, want in variants:
             log = []
             caches = [Cache(i, hits[i], log) for i in range(n)]
-            fc = fallback.FallbackClient(caches)
-            case = ("write", n, hits, op, args, kwargs)
+            fc = build(fallback, caches, reconf)
+            case = ("write", n, hits, op, args, kwargs, reconf)
             try:
                 getattr(fc, op)(*args, **kwargs)
             except Exception as e:
@@ -146,7 +166,8 @@ def run_scripted(res, fallback, n, hits):
             res.count("writes_checked")
             touched = sorted({e[0] for e in log})
             if touched != [0]:
-                res.violation("write-reaches-fallback:" + op, "%s touched caches %r" % (op, touched), case)
+                res.violation("write-reaches-fallback:" + op + (":reconfigured" if reconf else ""),
+                              "%s touched caches %r%s" % (op, touched, " after the order was changed through .caches (%s)" % reconf if reconf else ""), case)
             prim = [e for e in log if e[0] == 0]
             if len(prim) != 1 or prim[0][1] != op:
                 res.violation("write-wrong-call:" + op, "primary saw %r" % (prim,), case)
@@ -224,6 +245,10 @@ def shard(tier, seed, idx, n_sh):
             if work % n_sh != idx:
                 continue
             run_scripted(res, fallback, n, hits)
+            if n >= 2:
+                for reconf in ("insert-primary", "assign", "drop-old-primary"):
+                    run_scripted(res, fallback, n, hits, reconf)
+                    res.count("reconfigured_clients")
             if "falsy" not in hits:
                 run_real(res, fallback, n, hits)
     res.extra["exhaustive"] = True
@@ -238,6 +263,6 @@ def replay(case):
     if case[0].startswith("real"):
         run_real(res, fallback, n, hits)
     else:
-        run_scripted(res, fallback, n, hits)
+        run_scripted(res, fallback, n, hits, case[-1] if case[-1] in ("insert-primary", "assign", "drop-old-primary") else None)
     res.case(case)
     return res
